@@ -28,6 +28,28 @@ class PyLcd:
         return [[list(row) for row in chip.vram] for chip in self.c.chips]
 
     def _proj(self, ret):
+        # every other step the controller is observed through its snapshot API (get_snapshot(): what the state capture, the
+        # display tools and the save-state path see) instead of the chip objects; the two views must be the same machine
+        self.nstep = getattr(self, "nstep", 0) + 1
+        snap = None
+        if self.nstep % 2 == 0 and hasattr(self.c, "get_snapshot"):
+            try:
+                snap = self.c.get_snapshot()
+            except Exception:      # noqa: BLE001
+                snap = None
+        if snap is not None and len(getattr(snap, "chips", ())) == 2:
+            cur = [[list(row) for row in ch.vram] for ch in snap.chips]
+            delta = []
+            for ci in range(2):
+                for p in range(8):
+                    rp, rc = self.prev[ci][p], cur[ci][p]
+                    if rp != rc:
+                        for x in range(64):
+                            if rp[x] != rc[x]:
+                                delta.append([ci, p, x, rc[x]])
+            self.prev = cur
+            st = [{"on": int(ch.on), "start": ch.start_line, "page": ch.page, "y": ch.y_address, "busy": -1} for ch in snap.chips]
+            return {"ret": -1 if ret is None else int(ret), "st": st, "delta": delta}
         cur = self._vram()
         delta = []
         for ci in range(2):
